@@ -15,6 +15,7 @@
 package tls
 
 import (
+	"bytes"
 	"crypto"
 	"crypto/dsa" //nolint:staticcheck
 	"crypto/ecdsa"
@@ -94,6 +95,9 @@ func VerifySignature(pubKey crypto.PublicKey, data []byte, sig DigitallySigned) 
 		if dsaSig.R.Sign() <= 0 || dsaSig.S.Sign() <= 0 {
 			return errors.New("DSA signature contained zero or negative values")
 		}
+		if der, err := asn1.Marshal(dsaSig); err != nil || !bytes.Equal(der, sig.Signature[:len(sig.Signature)-len(rest)]) {
+			return errors.New("DSA signature is not a DER SEQUENCE of exactly two INTEGERs")
+		}
 		if !dsa.Verify(dsaKey, hash, dsaSig.R, dsaSig.S) {
 			return errors.New("failed to verify DSA signature")
 		}
@@ -112,6 +116,9 @@ func VerifySignature(pubKey crypto.PublicKey, data []byte, sig DigitallySigned) 
 		}
 		if ecdsaSig.R.Sign() <= 0 || ecdsaSig.S.Sign() <= 0 {
 			return errors.New("ECDSA signature contained zero or negative values")
+		}
+		if der, err := asn1.Marshal(ecdsaSig); err != nil || !bytes.Equal(der, sig.Signature[:len(sig.Signature)-len(rest)]) {
+			return errors.New("ECDSA signature is not a DER SEQUENCE of exactly two INTEGERs")
 		}
 
 		if !ecdsa.Verify(ecdsaKey, hash, ecdsaSig.R, ecdsaSig.S) {
